@@ -94,6 +94,8 @@ class UnitResult:
         self.log_tail = ''
         self.loop_obls = 0
         self.dropped_callees = []
+        self.real_fns = set()       # functions of /repo whose real body is in
+                                    # the verified program (carry obligations)
 
     def n_obl(self):
         return len([c for c in self.checks if not c['reach']])
@@ -127,6 +129,7 @@ def build_unit(u, scr, workdir, tier, trace=False, common_replace=()):
     common_replace = common_replace or u.get('_common', ())
     r = UnitResult(u)
     name = u['name']
+    scr_root = os.path.dirname(workdir)   # scratch root (plain + annotated trees)
     gb = os.path.join(workdir, name + '.gb')
     gbi = os.path.join(workdir, name + '.i.gb')
     for f in (gb, gbi):
@@ -265,6 +268,9 @@ def build_unit(u, scr, workdir, tier, trace=False, common_replace=()):
         if trace and 'trace' in c:
             item['trace'] = c['trace']
         r.checks.append(item)
+        if item['file'].startswith(scr_root) and item['function'] and \
+                '/src/' in item['file']:
+            r.real_fns.add(item['function'])
         if 'loop_invariant' in item['id'] or 'loop invariant' in desc \
                 or 'loop_step' in item['id']:
             r.loop_obls += 1
@@ -704,6 +710,7 @@ def write_evidence_file(prop, table, tier, seed, results, known_hits, nvio,
                        'enforce': r.unit.get('enforce', []),
                        'replace': r.unit.get('replace', []),
                        'bound': r.unit.get('bound'),
+                       'real_functions': sorted(r.real_fns),
                        'what': r.unit.get('what', ''),
                        'seconds': {k: round(v, 2)
                                    for k, v in r.secs.items()}}
@@ -711,6 +718,8 @@ def write_evidence_file(prop, table, tier, seed, results, known_hits, nvio,
             'functions_under_contract': fns_enf,
             'functions_verified_inlined': fns_direct,
             'functions_by_contract_only': fns_rep,
+            'functions_real_body_in_program': sorted(
+                set(f for r in results for f in r.real_fns)),
             'bounded_units': [{'unit': r.unit['name'],
                                'bound': r.unit.get('bound', ''),
                                'checks': r.n_obl(), 'passed': r.n_ok()}
